@@ -27,6 +27,57 @@ func (fr *frame) setState(st, from *State) {
 
 func (fr *frame) execCall(instr ssa.Value, c *ssa.CallCommon, st *State, env map[ssa.Value]Val, alive string) (Val, string) {
 	vc := fr.vc
+	if !vc.slice["C03"] {
+		return fr.execCall0(instr, c, st, env, alive)
+	}
+	// C03 schema: remember the error result of every fallible call
+	name := ""
+	var sig *types.Signature
+	if c.IsInvoke() {
+		name = ifaceShort(c.Value.Type()) + "." + c.Method.Name()
+		sig, _ = c.Method.Type().(*types.Signature)
+	} else if fn := c.StaticCallee(); fn != nil {
+		name = shortFn(fn)
+		sig = fn.Signature
+	} else {
+		sig, _ = c.Value.Type().Underlying().(*types.Signature)
+		name = "funcvalue"
+	}
+	swallowed := false
+	if fr.contract != nil {
+		for _, sw := range fr.contract.Swallows {
+			if strings.Contains(name, sw) {
+				swallowed = true
+			}
+		}
+	}
+	if swallowed {
+		vc.exemptC03++
+	}
+	rv, al := fr.execCall0(instr, c, st, env, alive)
+	if swallowed {
+		vc.exemptC03--
+		vc.usedSpecs["declared swallow in "+shortFn(fr.fn)+": error of "+name+" is deliberately not propagated"] = true
+		return rv, al
+	}
+	if sig != nil && !fr.exemptC03 && vc.quiet == 0 {
+		if ei := errResultIndex(sig); ei >= 0 {
+			var et string
+			if sig.Results().Len() == 1 {
+				et = rv.t
+			} else if ei < len(rv.tup) {
+				et = rv.tup[ei].t
+			}
+			if et != "" {
+				fr.errCalls = append(fr.errCalls, errCall{callee: name, err: et, pos: vc.pos(c.Pos()), reach: alive})
+			}
+		}
+	}
+	return rv, al
+}
+
+func (fr *frame) execCall0(instr ssa.Value, c *ssa.CallCommon, st *State, env map[ssa.Value]Val, alive string) (Val, string) {
+	vc := fr.vc
 	var args []Val
 	var argTypes []types.Type
 	pos := vc.pos(c.Pos())
@@ -325,6 +376,9 @@ func lastName(s string) string {
 func (fr *frame) applyContract(ct *Contract, key string, sig *types.Signature, args []Val, argTypes []types.Type, st *State, alive, pos string, cpkg *ssa.Package) (Val, string) {
 	vc := fr.vc
 	ct.used = true
+	if vc.exemptC03 == 0 && !fr.exemptC03 {
+		ct.usedStrict = true
+	}
 	if ct.Trusted {
 		vc.usedSpecs[key+" ["+ct.Src+"]"] = true
 	}
